@@ -49,6 +49,8 @@ EXTRA_SNIPPETS = {
     "shortB_named": ("Gammaxo, 1 U.S. at 301.", "ShortCaseCitation", 0),
     "shortA_var": ("Betaxo, 1 U. S. at 104.", "ShortCaseCitation", 0),       # variation spelling, defendant name
     "fullRoman": ("Iotaxo v. Kappaxo, 3 U.S. xii (1801)", "FullCaseCitation", 0),
+    "fullNom": ("Marburyxo v. Madisonxo, 5 U.S. (1 Cranch) 137 (1803)", "FullCaseCitation", 0),   # nominative form
+    "fullNomPlain": ("Marburyxo v. Madisonxo, 5 U.S. 137 (1803)", "FullCaseCitation", 0),         # same document
     "fullRoman2": ("Iotaxo v. Kappaxo, 3 U.S. iv (1801)", "FullCaseCitation", 0),       # other roman page, same volume
     "shortXname": ("Epsilonxo, 1 U.S. at 105.", "ShortCaseCitation", 0),               # A/B's volume, C's party name
     "fullNoName": ("1 U.S. 100", "FullCaseCitation", 0),                       # equal to A without parties
@@ -97,8 +99,8 @@ def instantiate(protos, combo):
 FOCUS = {
     "short": ["fullA", "fullB", "fullC", "fullC3", "fullNoName", "shortA_named", "shortAmb", "shortXname",
               "shortC3", "supraA"],
-    "id": ["fullA", "fullPh", "fullRoman", "fullRoman2", "journalPh", "law", "shortForeign", "idValid",
-           "idInvalid", "idNoPin", "idWinMax1", "unknown"],
+    "id": ["fullA", "fullPh", "fullRoman", "fullRoman2", "fullNom", "fullNomPlain", "journalPh", "law", "shortForeign",
+           "idValid", "idInvalid", "idNoPin", "idWinMax1", "unknown"],
 }
 FOCUS_LMAX = {3: 4, 5: 5}     # base bound -> focus bound
 
@@ -333,3 +335,11 @@ def resolution_doc(rng):
         else:
             parts.append(f"In {rng.choice([P, D])} at {page + 2} the court")
     return ". ".join(parts) + "."
+
+
+def long_lists(protos, rng, n):
+    """A few very long lists (more than 300 citations): bookkeeping that is keyed on the length of the
+    whole list, caps and caches only show there."""
+    allk = list(protos)
+    for _ in range(n):
+        yield tuple(rng.choice(allk) for _ in range(rng.randint(301, 420)))
